@@ -60,6 +60,9 @@ class FnView:
         noreturn: Callable[[ast.Call], bool] = _syntactic_noreturn
         self.cfg = CFG(fn.node, noreturn)
         self.res = Resolver(fn.node)
+        from .norm import assigned_names
+
+        self.locals = assigned_names([fn.node]) - set(fn.params()) - {fn.name}
 
     def guards(self, node: ast.AST, resolve: bool = True) -> set[str]:
         g = self.cfg.guards_at(node)
@@ -99,6 +102,24 @@ def view(prog: Program, key: str) -> FnView:
     return _views[k]
 
 
+_IDENT = re.compile(r"(?<![\w.'\"])([A-Za-z_]\w*)(?![\w(])")
+
+
+def alpha(fact: str, locals_: set[str]) -> str:
+    """Rename the function's local variables in a fact to $1, $2 .. by order of
+    first occurrence, so that a renamed local does not change the fact."""
+    order: dict[str, str] = {}
+
+    def rep(m: re.Match) -> str:
+        nm = m.group(1)
+        if nm in locals_:
+            order.setdefault(nm, f"${len(order) + 1}")
+            return order[nm]
+        return nm
+
+    return _IDENT.sub(rep, fact)
+
+
 def has_fact(facts: Iterable[str], pattern: str) -> bool:
     rx = re.compile(pattern)
     return any(rx.fullmatch(f) for f in facts)
@@ -108,6 +129,8 @@ def need_facts(need: str) -> list[str]:
     """A need is a Python condition (canonicalised like a guard) or `re:<regex>`."""
     if need.startswith("re:") or need.startswith("exhausted("):
         return [need]
+    if need.startswith("raw:"):
+        return ["raw:" + need[4:]]
     from .norm import facts as _facts
 
     e = ast.parse(need, mode="eval").body
@@ -148,6 +171,10 @@ def _establishing(v: FnView, fact: str) -> list:
             if fact.startswith("re:"):
                 if has_fact(fs, fact[3:]):
                     out.append(n)
+            elif fact.startswith("raw:"):
+                want = alpha(fact[4:], v.locals)
+                if any(alpha(f, v.locals) == want for f in fs):
+                    out.append(n)
             elif fact in fs:
                 out.append(n)
     return out
@@ -187,6 +214,10 @@ def need_holds(v: FnView, node: ast.AST, alts: list[str], raw: bool = False, non
             return all(need_holds(v, node, [f], raw=True, nonnull=nonnull) for f in fs)
         if fs[0].startswith("re:"):
             if has_fact(local, fs[0][3:]):
+                return True
+        elif fs[0].startswith("raw:"):
+            want = alpha(fs[0][4:], v.locals)
+            if any(alpha(f, v.locals) == want for f in local):
                 return True
         elif fs[0] in local:
             return True
